@@ -1,6 +1,8 @@
 import QuicModel.Codec.VarInt
+import QuicModel.Data.RefBuf
 import QuicModel.Driver
 import QuicModel.Drivers.All
+import QuicModel.Drivers.Reassembler
 import QuicModel.Drivers.VarInt
 import QuicModel.Generated.VarInt
 import QuicModel.Prelude
